@@ -302,7 +302,7 @@ def _try_get_known_phased_pauli(
     elif isinstance(gate, ops.YPowGate):
         e = gate.exponent
         p = 0.5
-    elif isinstance(gate, ops.XPowGate):
+    elif isinstance(gate, ops.XPowGate) and gate.dimension == 2:  # not the qudit shift
         e = gate.exponent
         p = 0.0
     elif (
@@ -330,7 +330,7 @@ def _try_get_known_z_half_turns(
     ):
 
         h = g.z_exponent
-    elif isinstance(g, ops.ZPowGate):
+    elif isinstance(g, ops.ZPowGate) and g.dimension == 2:  # not the qudit clock
         h = g.exponent
     else:
         return None
